@@ -739,7 +739,8 @@ class Fingerprint(str):
 class SorteDeque(collections.deque):
     """A deque subclass that tries to maintain sorted ordering using bisect"""
     def insort(self, item):
-        i = bisect.bisect_left(self, item)
+        # equal items keep their insertion order (the one inserted last sorts last)
+        i = bisect.bisect_right(self, item)
         self.rotate(- i)
         self.appendleft(item)
         self.rotate(i)
